@@ -552,6 +552,7 @@ func runE2E(raw json.RawMessage, seed int64, rec *Rec) {
 		cerr = ss.Err()
 		chdr, ctrl = ss.ResponseHeader(), ss.ResponseTrailer()
 		_ = ss.Close()
+		_ = ss.Close() // closing twice (a deferred Close after an explicit one) is ordinary user code
 	default:
 		bs := client.CallBidiStream(ctx)
 		setHdr(bs.RequestHeader())
@@ -582,6 +583,7 @@ func runE2E(raw json.RawMessage, seed int64, rec *Rec) {
 			wg.Wait()
 			chdr, ctrl = bs.ResponseHeader(), bs.ResponseTrailer()
 			_ = bs.CloseResponse()
+			_ = bs.CloseResponse()
 			break
 		}
 		for _, m := range sc.Req {
@@ -603,6 +605,7 @@ func runE2E(raw json.RawMessage, seed int64, rec *Rec) {
 			cMsgs = append(cMsgs, st.table.ID(m.Value))
 		}
 		chdr, ctrl = bs.ResponseHeader(), bs.ResponseTrailer()
+		_ = bs.CloseResponse()
 		_ = bs.CloseResponse()
 	}
 	earlyErr := errView(cerr)
